@@ -126,6 +126,15 @@ func c05run(idx int) run.Result {
 	before := time.Now()
 	pr := runPipe(srv, reqs, chunkAt(stream, ends), sconn.Script{End: sconn.EOF})
 	after := time.Now()
+	// the request proper is the second chunk: it was not available to the server before the would-block read
+	// that preceded its delivery, and its reply was written before the next one. Times the server derives from
+	// "now" while executing it lie between the two, however long the connection has existed.
+	if wbs := pr.Snap.WouldBlocks; len(wbs) >= 2 {
+		before = wbs[1].At
+		if len(wbs) >= 3 {
+			after = wbs[2].At
+		}
+	}
 	calls := rec.Snapshot()
 	cmd := cmdName(c.Req)
 	desc := func() any {
